@@ -668,7 +668,7 @@ func (x *Exec) evalLetFork(st *State, env *Env, e Expr) []specOut {
 		if _, bound := env.lookup(id.name); !bound {
 			_, isSpec := x.specs[id.name]
 			switch id.name {
-			case "sq", "abs", "min", "max", "sqrt", "ite", "real", "floor", "len", "old", "pre", "isnil", "sin", "cos", "nsent", "sent", "samecell", "maphas", "mapval", "nev", "evarg", "evbefore":
+			case "sq", "abs", "min", "max", "sqrt", "ite", "real", "floor", "len", "old", "pre", "isnil", "sin", "cos", "nsent", "sent", "samecell", "maphas", "mapval", "nev", "evarg", "evbefore", "evres":
 				isSpec = true
 			}
 			if isSpec {
